@@ -1285,3 +1285,95 @@ func TestVerifScanWindowReplay(t *testing.T) {
 	fmt.Printf("SCANWINDOW reproduced=%v hook-fired=%v steps=%q scan-dirty=%v in-flight-map=%v heap=%v handed-to-put-again=%d early-by=%v\n",
 		reproduced, fired, steps, dirty, stillInFlight, inHeap, released, time.Duration(newDeadline-oldDeadline))
 }
+
+// TestVerifStaleHeapReplay — audit A3 / fix F48 (known finding C04 `stale-heap-entry-hides-due`): a late
+// `REQ M 0` of the SAME connection, processed between the in-flight-map insert and the deadline-heap insert of
+// M's redelivery (hook chan.inflight.afterMapPush), leaves a heap entry for an object that is queued again; its
+// next delivery rewrites msg.pri in place inside the heap; processInFlightQueue then does not see X although X is
+// overdue. Lean: Props.C04Micro.scan_complete_micro_false (pre-F48 shape), stale_entry_impossible_fixed (F48 shape).
+// Owns the clock: the scans are called with chosen times.
+func TestVerifStaleHeapReplay(t *testing.T) {
+	opts := NewOptions()
+	opts.Logger = nil
+	opts.LogLevel = LOG_FATAL
+	opts.DataPath = t.TempDir()
+	opts.MemQueueSize = 100
+	opts.QueueScanInterval = time.Hour
+	opts.QueueScanRefreshInterval = time.Hour
+	_, _, nsqd := mustStartNSQD(opts)
+	defer nsqd.Exit()
+	defer vfE1PanicGuard("the stale-heap replay", nil)()
+	defer VerifClearHooks()
+	c := nsqd.GetTopic("vf_staleheap").GetChannel("ch")
+	m := &Message{ID: vfE1MsgID(1), Body: []byte("M")}
+	x := &Message{ID: vfE1MsgID(2), Body: []byte("X")}
+	steps := []string{}
+	c.PutMessage(m)
+	take := func() *Message {
+		select {
+		case g := <-c.memoryMsgChan:
+			g.Attempts++
+			return g
+		default:
+			return nil
+		}
+	}
+	// delivery 1 of M to connection 1, ignored, timed out by a scan one second later
+	g := take()
+	if g == nil {
+		t.Fatal("M not queued")
+	}
+	c.StartInFlightTimeout(g, 1, 10*time.Millisecond)
+	c.processInFlightQueue(time.Now().Add(time.Second).UnixNano())
+	// delivery 2 of M to connection 1; its late REQ (for delivery 1) runs inside the delivery window
+	g = take()
+	if g == nil {
+		t.Fatal("M not requeued by the first timeout")
+	}
+	fired := false
+	VerifSetHook("chan.inflight.afterMapPush", func(string) {
+		if fired {
+			return
+		}
+		fired = true
+		if err := c.RequeueMessage(1, m.ID, 0); err != nil {
+			steps = append(steps, "late REQ refused: "+err.Error())
+		} else {
+			steps = append(steps, "late REQ M 0 by connection 1 accepted inside the delivery window")
+		}
+	})
+	c.StartInFlightTimeout(g, 1, time.Second)
+	c.inFlightMutex.Lock()
+	staleAfterWindow := len(c.inFlightPQ) - len(c.inFlightMessages)
+	c.inFlightMutex.Unlock()
+	// X to connection 2 with a 2 s timeout
+	t0 := time.Now()
+	c.StartInFlightTimeout(x, 2, 2*time.Second)
+	// delivery 3 of M (same object) to connection 3 with a 60 s timeout
+	if g = take(); g != nil {
+		c.StartInFlightTimeout(g, 3, 60*time.Second)
+		steps = append(steps, fmt.Sprintf("M redelivered to connection 3 (same object: %v) with 60s", g == m))
+	}
+	c.inFlightMutex.Lock()
+	heapLen, mapLen := len(c.inFlightPQ), len(c.inFlightMessages)
+	heapOK := true
+	for i := 1; i < len(c.inFlightPQ); i++ {
+		if c.inFlightPQ[(i-1)/2].pri > c.inFlightPQ[i].pri {
+			heapOK = false
+		}
+	}
+	c.inFlightMutex.Unlock()
+	held := func() bool {
+		c.inFlightMutex.Lock()
+		defer c.inFlightMutex.Unlock()
+		_, ok := c.inFlightMessages[x.ID]
+		return ok
+	}
+	d1 := c.processInFlightQueue(t0.Add(3 * time.Second).UnixNano())
+	late1 := held()
+	d2 := c.processInFlightQueue(t0.Add(59 * time.Second).UnixNano())
+	late2 := held()
+	reproduced := fired && (late1 || late2)
+	fmt.Printf("STALEHEAP reproduced=%v hook-fired=%v steps=%q stale-entries-after-window=%d heap=%d map=%d heap-order-ok=%v scan(X.deadline+1s): dirty=%v X-still-in-flight=%v scan(X.deadline+57s): dirty=%v X-still-in-flight=%v\n",
+		reproduced, fired, steps, staleAfterWindow, heapLen, mapLen, heapOK, d1, late1, d2, late2)
+}
